@@ -201,13 +201,20 @@ def load_image(img):
     return np.load(io.BytesIO(img), allow_pickle=False)
 
 
+def same_content(arr, logical, hidden_rows):
+    """File content vs logical content; rows the store was told not to expose may follow."""
+    if hidden_rows:
+        return arr.dtype == logical.dtype and len(arr) >= len(logical) and np.array_equal(arr[:len(logical)], logical)
+    return arr.shape == logical.shape and arr.dtype == logical.dtype and np.array_equal(arr, logical)
+
+
 def model_array(model, dtype, rowshape):
     if not model:
         return np.zeros((0,) + rowshape, dtype=dtype)
     return np.concatenate(model, axis=0)
 
 
-OPS = ('append', 'overwrite', 'delete_last', 'clear', 'flush', 'reopen', 'pickle')
+OPS = ('append', 'overwrite', 'delete_last', 'clear', 'flush', 'reopen', 'pickle', 'reopen_fewer')
 
 
 def h_store(ctx, n_ops, ops=OPS, configs=None):
@@ -219,6 +226,8 @@ def h_store(ctx, n_ops, ops=OPS, configs=None):
     history = []          # logical contents since the last flush (for the crash claim)
     tag = [0]
     script = []
+    hidden = [0]          # rows of the file beyond the store's view (after reopening with n_batches below the file's count)
+    hidden_batches = []   # their contents (they become visible again when the file is reopened in full)
 
     def fresh():
         tag[0] += 1
@@ -243,7 +252,7 @@ def h_store(ctx, n_ops, ops=OPS, configs=None):
             except Exception as e:
                 ok_all, bad = False, 'crash point %d/%d: file does not load (%s)' % (k, len(imgs) - 1, type(e).__name__)
                 break
-            if not any(arr.shape == h.shape and arr.dtype == h.dtype and np.array_equal(arr, h) for h in history):
+            if not any(same_content(arr, h, hr) for h, hr in history):
                 ok_all, bad = False, 'crash point %d/%d: content %s matches no logical state since the flush' % (
                     k, len(imgs) - 1, arr.tolist())
                 break
@@ -257,13 +266,16 @@ def h_store(ctx, n_ops, ops=OPS, configs=None):
         model.append(fresh())
         store[0] = model[0]
         store.flush()
-        history[:] = [logical()]
+        history[:] = [(logical(), hidden[0])]
         for k in range(n_ops):
             op = ops[ctx.choice('op%d' % k, len(ops))]
             if op == 'append':
                 b = fresh()
                 store[len(model)] = b
                 model.append(b)
+                if hidden[0]:
+                    hidden[0] = max(0, hidden[0] - bs)     # written in place over a hidden batch
+                    hidden_batches[:] = hidden_batches[1:]
             elif op == 'overwrite':
                 if not model:
                     raise core.Infeasible()
@@ -276,39 +288,55 @@ def h_store(ctx, n_ops, ops=OPS, configs=None):
                     raise core.Infeasible()
                 del store[len(model) - 1]
                 model.pop()
+                hidden[0] = 0          # truncation removes everything behind the deleted batch
+                hidden_batches[:] = []
             elif op == 'clear':
                 store.clear()
                 model[:] = []
+                hidden[0] = 0
+                hidden_batches[:] = []
             elif op == 'flush':
                 store.flush()
             elif op == 'reopen':
                 store.close()
-                history[:] = [logical()]
+                history[:] = [(logical(), hidden[0])]
                 ctx.claim('op%d_closed_file_is_standard_npy_with_the_content' % k,
-                          np.array_equal(load_image(bytes(fs.files[name])), logical()) and
-                          load_image(bytes(fs.files[name])).dtype == dtype)
+                          same_content(load_image(bytes(fs.files[name])), logical(), hidden[0]))
                 store = est.NpyStore(name, bs)
+                # opened in full: rows that were hidden from the previous view are batches again
+                model.extend(hidden_batches)
+                hidden_batches[:] = []
+                hidden[0] = 0
+                history[:] = [(logical(), hidden[0])]
+            elif op == 'reopen_fewer':
+                # close, then open the file again exposing one batch less than it holds
+                if len(model) < 2:
+                    raise core.Infeasible()
+                store.close()
+                hidden[0] = bs
+                hidden_batches[:] = [model.pop()]
+                history[:] = [(logical(), hidden[0])]
+                store = est.NpyStore(name, bs, n_batches=len(model))
             elif op == 'pickle':
                 blob = pickle.dumps(store)
                 store2 = pickle.loads(blob)
-                history[:] = [logical()]
+                history[:] = [(logical(), hidden[0])]
                 check_store(store2, 'op%d_unpickled' % k)
                 store.close()
                 store = store2
             script.append(op)
-            history.append(logical())
+            history.append((logical(), hidden[0]))
             if op in ('flush',):
-                history[:] = [logical()]
+                history[:] = [(logical(), hidden[0])]
                 img = bytes(fs.files[name])
                 arr = load_image(img)
-                ctx.claim('op%d_flushed_file_is_standard_npy_with_the_content' % k,
-                          np.array_equal(arr, logical()) and arr.dtype == dtype and arr.shape == logical().shape)
+                ctx.claim('op%d_flushed_file_is_standard_npy_with_the_content' % k, same_content(arr, logical(), hidden[0]))
             check_store(store, 'op%d_%s' % (k, op))
             check_crash('op%d_%s' % (k, op))
         ctx.note('config=%s script=%s' % (cfg, script))
         store.close()
         arr = load_image(bytes(fs.files[name]))
-        ctx.claim('final_close_file_loads_to_content', np.array_equal(arr, logical()) and arr.dtype == dtype)
+        ctx.claim('final_close_file_loads_to_content', same_content(arr, logical(), hidden[0]))
 
 
 HARNESSES = [
